@@ -93,6 +93,8 @@ func RacePass(env *engine.Env, outFile string) error {
 					defer wg.Done()
 					<-start
 					if c.Mode == "S1v" {
+						_, _ = nfpm.Get(strings.ToUpper(c.Formats[i]))
+						_, _ = nfpm.Get(" " + c.Formats[i])
 						_ = cfgs[i].Validate()
 					}
 					out[i] = hash(cfgs[i], c.Formats[i])
